@@ -484,3 +484,7 @@ def run(repo: Repo, rep: Report, tier: str) -> None:
     replicate_rule(repo, rep, "C17.R23")
     # local assignment through a structure nested in a union: the proxy names the top-level member at every depth
     proxy_fold_rule(repo, rep, "C17.R24")
+    from .c11 import union_life_rule
+
+    # local assignment, for unions: assigning a member changes exactly its bytes
+    union_life_rule(repo, rep, "C17.R25")
